@@ -11,14 +11,85 @@ from .model import AnalysisError, iter_functions
 from .report import RuleResult
 from .terms import Const
 
-TABLE = "_RUNTIMES"
+TABLE = "_RUNTIMES"              # rebound by _bind_names() to whatever the tables are called in the tree under analysis
 DEFAULTS = "_DEFAULT_HANDLERS"
+LOCKNAME = "lock"
+LOCKS_TABLE = "_LOCKS"
+LOCKS_LOCK = "_MODULE_LOCK"
+GET_LOCK = "_get_lock"
+
+
+def _dict_vars(m) -> Dict[str, ast.expr]:
+    out = {}
+    for name, r in m.names.items():
+        if r[0] == "var" and ((isinstance(r[1], ast.Dict) and not r[1].keys) or (isinstance(r[1], ast.Call) and ast.unparse(r[1].func) in ("dict", "weakref.WeakValueDictionary", "WeakValueDictionary", "weakref.WeakKeyDictionary"))):
+            out[name] = r[1]
+    return out
+
+
+def _lock_vars(m) -> List[str]:
+    return [name for name, r in m.names.items() if r[0] == "var" and isinstance(r[1], ast.Call) and ast.unparse(r[1].func).split(".")[-1] in ("Lock", "RLock")]
+
+
+def _bind_names(run: Run) -> None:
+    """Find the shared tables and locks by what they are used for, not by what they are called:
+    the thread -> runtime table is the module-level dictionary of runtime.py that is indexed by
+    threading.current_thread(); the default-handler table the other one; the module lock the
+    module-level threading lock.  Likewise the lock registry of overload.py."""
+    global TABLE, DEFAULTS, LOCKNAME, T_KEY, D_KEY, LOCK_KEY, LOCKS_TABLE, LOCKS_LOCK, GET_LOCK
+    m = run.repo.modules.get("labrea.runtime")
+    if m is None:
+        raise AnalysisError("labrea/runtime.py not found")
+    dicts = _dict_vars(m)
+    thread_tabs = []
+    for name in dicts:
+        for fn_m, cls, fn, q in iter_functions(run.repo):
+            if fn_m is not m:
+                continue
+            tn = _thread_names(fn)
+            for x in ast.walk(fn):
+                key = None
+                if isinstance(x, ast.Subscript) and isinstance(x.value, ast.Name) and x.value.id == name:
+                    key = x.slice
+                elif isinstance(x, ast.Call) and isinstance(x.func, ast.Attribute) and isinstance(x.func.value, ast.Name) and x.func.value.id == name and x.args:
+                    key = x.args[0]
+                if key is not None and (ast.unparse(key).endswith("current_thread()") or (isinstance(key, ast.Name) and key.id in tn)):
+                    if name not in thread_tabs:
+                        thread_tabs.append(name)
+    if len(thread_tabs) != 1:
+        raise AnalysisError(f"labrea/runtime.py: expected exactly one module-level dictionary indexed by the current thread, found {thread_tabs}")
+    TABLE = thread_tabs[0]
+    others = [n for n in dicts if n != TABLE]
+    if len(others) != 1:
+        raise AnalysisError(f"labrea/runtime.py: expected exactly one other module-level dictionary (the default handlers), found {others}")
+    DEFAULTS = others[0]
+    locks = _lock_vars(m)
+    if len(locks) != 1:
+        raise AnalysisError(f"labrea/runtime.py: expected exactly one module-level lock, found {locks}")
+    LOCKNAME = locks[0]
+    T_KEY = f"global<labrea.runtime.{TABLE}>"
+    D_KEY = f"global<labrea.runtime.{DEFAULTS}>"
+    LOCK_KEY = f"global<labrea.runtime.{LOCKNAME}>"
+    om = run.repo.modules.get("labrea.overload")
+    if om is not None:
+        od = list(_dict_vars(om))
+        ol = _lock_vars(om)
+        if len(od) == 1:
+            LOCKS_TABLE = od[0]
+        if len(ol) == 1:
+            LOCKS_LOCK = ol[0]
+        for q, fi in run.repo.functions.items():
+            if fi.module is om and any(isinstance(x, ast.Name) and x.id == LOCKS_TABLE for x in ast.walk(fi.node)):
+                GET_LOCK = fi.node.name
 
 
 def _rt(run: Run):
     m = run.repo.modules.get("labrea.runtime")
     if m is None:
         raise AnalysisError("labrea/runtime.py not found")
+    if "rt_names" not in run._rule_cache:
+        run._rule_cache["rt_names"] = True
+        _bind_names(run)
     return m, run.repo.cls("Runtime")
 
 
@@ -300,7 +371,7 @@ def rule_NR(run: Run) -> RuleResult:
 
 
 # ------------------------------------------------------------------ R-DF
-D_KEY = "global<labrea.runtime._DEFAULT_HANDLERS>"
+D_KEY = "global<labrea.runtime._DEFAULT_HANDLERS>"      # rebound by _bind_names()
 
 
 def rule_DF(run: Run) -> RuleResult:
@@ -528,7 +599,7 @@ def rule_LS(run: Run) -> RuleResult:
             for c in astu.calls_in(fn2):
                 if astu.short_name(c) == short and c.func in refs:
                     sites += 1
-                    if "lock" not in held2.get(id(c), []) and not callers_hold_lock(q2, seen + (q,)):
+                    if LOCKNAME not in held2.get(id(c), []) and not callers_hold_lock(q2, seen + (q,)):
                         return False
         return sites > 0 and sites == len(refs)
 
@@ -538,7 +609,7 @@ def rule_LS(run: Run) -> RuleResult:
         for x in astu.walk_no_nested(fn):
             if isinstance(x, ast.Name) and x.id == TABLE:
                 n_tab += 1
-                ok = "lock" in held.get(id(x), [])
+                ok = LOCKNAME in held.get(id(x), [])
                 how = f"held: {held.get(id(x), [])}"
                 if not ok:
                     if helper_ok is None:
@@ -553,11 +624,11 @@ def rule_LS(run: Run) -> RuleResult:
                 is_write = (isinstance(par, ast.Subscript) and isinstance(par.ctx, (ast.Store, ast.Del))) or \
                     (isinstance(par, ast.Attribute) and par.attr in MUT)
                 if is_write:
-                    ok = "lock" in held.get(id(x), []) or bool(callers_hold_lock(q))
+                    ok = LOCKNAME in held.get(id(x), []) or bool(callers_hold_lock(q))
                     res.add(f"{q}:write to {DEFAULTS} under lock", ok, m.relpath, x.lineno, f"held: {held.get(id(x), [])}", nec)
     if n_tab < 5:
         raise AnalysisError(f"only {n_tab} accesses of {TABLE} found (6 confirmed by hand)")
-    lockdef = m.names.get("lock")
+    lockdef = m.names.get(LOCKNAME)
     ok = lockdef is not None and lockdef[0] == "var" and ast.unparse(lockdef[1]).startswith("threading.") and "Lock" in ast.unparse(lockdef[1])
     res.add("labrea.runtime.lock:is a threading lock", ok, m.relpath, 1, ast.unparse(lockdef[1]) if lockdef else "missing", nec)
     # overload module
@@ -568,9 +639,9 @@ def rule_LS(run: Run) -> RuleResult:
             continue
         held = _with_stack(fn)
         for x in astu.walk_no_nested(fn):
-            if isinstance(x, ast.Name) and x.id == "_LOCKS":
-                ok = "_MODULE_LOCK" in held.get(id(x), [])
-                res.add(f"{q}:access to _LOCKS under _MODULE_LOCK", ok, om.relpath, x.lineno, f"held: {held.get(id(x), [])}", nec)
+            if isinstance(x, ast.Name) and x.id == LOCKS_TABLE:
+                ok = LOCKS_LOCK in held.get(id(x), [])
+                res.add(f"{q}:access to {LOCKS_TABLE} under {LOCKS_LOCK}", ok, om.relpath, x.lineno, f"held: {held.get(id(x), [])}", nec)
     for mm, cls, fn, q in iter_functions(repo):
         if cls is None:
             continue
@@ -597,12 +668,12 @@ def rule_LS(run: Run) -> RuleResult:
     if not any(isinstance(s, (ast.Assign, ast.AugAssign)) and "self.lookup" in ast.unparse(s.targets[0] if isinstance(s, ast.Assign) else s.target) for s in ast.walk(reg)):
         res.add("labrea.overload.Overloaded.register:updates self.lookup", False, om.relpath, reg.lineno, "register no longer assigns self.lookup", nec)
     # the lock is per object and survives pickling by id
-    gl = repo.functions.get("labrea.overload._get_lock")
+    gl = repo.functions.get(f"labrea.overload.{GET_LOCK}")
     ok = False
     if gl is not None:
         from .interp import analyse_function
         k = astu.param_names(gl.node, skip_self=False)[0]
-        L = "global<labrea.overload._LOCKS>"
+        L = f"global<labrea.overload.{LOCKS_TABLE}>"
         gps = analyse_function(Ctx(repo), gl.module, gl.node)
         ok = bool(gps)
         for p in gps:
